@@ -6,11 +6,19 @@ from . import reports
 from .types import ExpressionToken
 
 
-def wrap_impure(expr, invoke):
+def wrap_impure(expr, invoke, key):
     def fn(*args):
         expr.value = invoke(*args)
+        expr.values[key] = expr.value
         return expr.value
     return fn
+
+
+def value_key(state):
+    # The cached value of an impure operator is only valid for the statement instance it was
+    # computed for: the same token is evaluated again, at another address, by every iteration
+    # of '.repeat' (each iteration compiles its block under a fresh local symbol prefix)
+    return (state.get("local_symbol_prefix"), id(state.get("emit_address")))
 
 
 class InfixOperator(ExpressionToken):
@@ -26,10 +34,11 @@ class InfixOperator(ExpressionToken):
         self.lhs: ExpressionToken = lhs
         self.rhs: ExpressionToken = rhs
         self.value = None
+        self.values = {}
 
     def resolve(self, state):
-        if self.value is not None:
-            return self.value
+        if value_key(state) in self.values:
+            return self.values[value_key(state)]
 
         lhs = self.lhs.resolve(state)
         rhs = self.rhs.resolve(state)
@@ -39,7 +48,7 @@ class InfixOperator(ExpressionToken):
         # is True
         invoke = self.fn if self.token else type(self).fn
         if not self.pure:
-            invoke = wrap_impure(self, invoke)
+            invoke = wrap_impure(self, invoke, value_key(state))
 
         if not isinstance(lhs, BaseDeferred) and not isinstance(rhs, BaseDeferred):
             return invoke(lhs, rhs)
@@ -66,16 +75,17 @@ class UnaryOperator(ExpressionToken):
         super().__init__(ctx_start, ctx_end)
         self.operand: ExpressionToken = operand
         self.value = None
+        self.values = {}
 
     def resolve(self, state):
-        if self.value is not None:
-            return self.value
+        if value_key(state) in self.values:
+            return self.values[value_key(state)]
 
         operand = self.operand.resolve(state)
 
         invoke = self.fn if self.token else type(self).fn
         if not self.pure:
-            invoke = wrap_impure(self, invoke)
+            invoke = wrap_impure(self, invoke, value_key(state))
 
         if not isinstance(operand, BaseDeferred):
             return invoke(operand)
